@@ -4,7 +4,7 @@
    functions of Store.v), the layer-B replay "which blocks were acknowledged" computed from what
    the caller saw, the executable well-formedness check of a finished file, and the executable
    guards.  No proofs here. *)
-From GoCar Require Import Bytes Varint Cid Header Frame V2Header Index Store.
+From GoCar Require Import Bytes Varint Cid Header Frame V2Header Index Store StoreSpec.
 
 Definition blk := (bytes * bytes)%type.   (* cid bytes, data *)
 
@@ -292,6 +292,18 @@ Definition spec_get_ok (o : wopts) (st : list blk) (c d : bytes) : bool :=
 (* the CARv1 payload holding [st] *)
 Definition fpayload (nilroots : bool) (roots : list bytes) (st : list blk) : bytes :=
   ld (enc_header (roots_opt nilroots roots) 1) ++ concat (map (fun b => enc_section (fst b) (snd b)) st).
+
+(* ---- the read operations against the reference map of C04 (StoreSpec.v) ------------------------------ *)
+(* what a read operation must answer when the store holds exactly the blocks of [m]; Get needs a
+   readable target (blockstore, storage opened readable+writable) *)
+Definition spec_query (kn : N) (o : wopts) (m : mstate) (q : fop) : option out :=
+  match q with
+  | FHas c => Some (m_has o m c)
+  | FGet c => Some (if (kn =? 0) || (kn =? 1) then m_get o m c else OErr EOther)
+  | FGetSize c => Some (m_getsize o m c)
+  | FKeys => Some (m_keys o m)
+  | _ => None
+  end.
 
 (* ---- side conditions of the theorems (sizes Go cannot exceed anyway) -------------------------------- *)
 Definition op_blocks (op : fop) : list blk :=
